@@ -23,7 +23,7 @@ PROPS = {
         "thorough": {"shards": 16, "cases": 6000, "watchdog_s": 14400, "require": {"evaluations": 400000}},
     },
     "C02": {
-        "technique": "runtime monitoring: (1) label-flow invariants over every consistent derivation of generated trees, (2) rewriter-arm observations of the applied derivation through hook events, (3) channel-cut non-interference on SQLite executions of the DP-rewritten query",
+        "technique": "runtime monitoring: (1) label-flow invariants over every consistent derivation of generated trees, (2) rewriter-arm observations and label flow over the applied derivation itself (hook events: each rule must consume the labels its inputs were rewritten to), (3) channel-cut non-interference on SQLite executions of the DP-rewritten query",
         "level_text": "Exploration: ~25k tree configurations per quick run for the label-flow and arm monitors: for each consistent derivation, a protected table is never labelled Public/Published/DP, no node labelled Public/Published depends on a protected table without a PUP->DP reduce in between, DP labels only on reduces over PUP inputs; for the applied derivation, PUP-labelled nodes carry the privacy-unit columns, synthetic tables are substituted, DP reduces go through the DP aggregation, the root label is acceptable. Channel-cut monitor: ~5k DP queries x 4 variants of the protected tables (everything re-drawn, one cell changed, one unit removed, all emptied): with every noised aggregate column and every thresholded key set pinned to the values of the first run, the final result must be identical.",
         "level_note": "Trusted: the brute-force enumerator and the raw(n) dataflow definition; hook events for 'which arm'.",
         "rule": ("4 queries per generated DP world x synthetic flag x strategy x entry point; evaluation = one tree configuration; distinct non-trivial = distinct configurations."),
@@ -34,7 +34,7 @@ PROPS = {
     "C03": {
         "technique": "runtime monitoring: offline checker over the hook event log (calibration parameters per mechanism) cross-checked against the literals of the emitted IR (sigma of every Gaussian term, tau of every threshold filter) and the returned DpEvent",
         "level_text": "Exploration: ~30k DP compilations per quick run (1-3 aggregates incl. DISTINCT splits, var/std, grouped by public / private / mixed keys, joins along the privacy-unit path and with public tables, nested DP sub-queries, HAVING) x DpParameters grid (epsilon 0.01..50, delta 1e-9..0.1, thresholding shares, multiplicities, max groups 1..10) x with/without synthetic data, plus zero-budget requests. For each: every noised column of the IR must be matched by a Gaussian entry with multiplier <= sigma/C, every threshold filter by an epsilon-delta entry it satisfies (independent tau formula), and each aggregation's applied noise must fit its (epsilon, delta) under basic composition for some delta split.",
-        "level_note": "Trusted: the Gaussian calibration formula, Acklam's normal quantile (rel. error 1.2e-9), the IR pattern matcher for noise terms / threshold filters. The hook only supplies the clipping bound and the announced split; sigma and tau are read from the IR. Checks calibration formulas, not the DP theorem.",
+        "level_note": "Clipping constants are read from the scale-factor projections of the IR and must be among the bounds the noise was calibrated with. Trusted: the Gaussian calibration formula, Acklam's normal quantile (rel. error 1.2e-9), the IR pattern matcher for noise terms / threshold filters. The hook only supplies the clipping bound and the announced split; sigma and tau are read from the IR. Checks calibration formulas, not the DP theorem.",
         "rule": ("4 (query, parameters, synthetic flag) triples per generated DP world; evaluation = one accepted DP compilation; "
                  "distinct non-trivial = distinct triples whose rewritten query contains at least one randomised mechanism."),
         "assumptions": COMMON_ASSUME + ["the events of the applied derivation are the last candidate group all of whose rewritten node names occur in the returned relation"],
@@ -53,7 +53,7 @@ PROPS = {
     "C05": {
         "technique": "runtime monitoring: the privacy-unit-preserving rewriting executed on SQLite on D and on D restricted to each single unit (independent attribution of base rows along the declared foreign keys); the rows attributed to u in the full result must equal the result on D|u",
         "level_text": "Exploration: ~10k tracked rewritings per quick run (maps with filters/expressions, joins tracked x tracked / tracked x public / public x tracked of several kinds, union, per-unit aggregation, DISTINCT, ORDER BY/LIMIT, row privacy) under both strategies, hashed and unhashed ids, with dangling references; ~5 restrictions each. Also: no NULL unit/weight, no row attributed to an unknown unit, a restricted database yields a single unit.",
-        "level_note": "Trusted: SQLite + compatibility layer (md5 cross-checked against RFC 1321 vectors), the independent unit attribution. Row-privacy ids are random: compared modulo the id column.",
+        "level_note": "Also refused: a result without privacy-unit columns for a query reading a protected table, and a rewriting the engine rejects for a missing column. Worlds: relation names differing from keys, weight columns, a table whose unit is a non-unique column, non-key / outer / cross joins of tracked tables. Trusted: SQLite + compatibility layer (md5 cross-checked against RFC 1321 vectors), the independent unit attribution. Row-privacy ids are random: compared modulo the id column.",
         "rule": ("3 (query, strategy) pairs per generated DP world (2..6 users); evaluation = one tracked result; distinct non-trivial = distinct (query, strategy, hash flag, instance shape) with a non-empty result."),
         "assumptions": COMMON_ASSUME,
         "quick": {"shards": 16, "cases": 300, "watchdog_s": 1500, "require": {"evaluations": 6000, "restrictions_executed": 20000, "tracked_results:Soft": 2000, "tracked_results:Hard": 3000}},
@@ -104,7 +104,7 @@ PROPS = {
     "C09": {
         "technique": "runtime monitoring: DP-rewritten queries executed staged on SQLite with the random source scripted per stage (constant 1.0 on noise nodes => exactly zero noise, distinct draws elsewhere), compared with the original query on the same instance; premises (all scale factors = 1, referential integrity) are observed, not assumed",
         "level_text": "Exploration: ~12k zero-noise executions per quick run of DP-compiled aggregation queries (ungrouped or grouped by public-valued keys, joins along the privacy-unit path and with public tables, filters, nullable columns, DISTINCT aggregates, several aggregates of one column, var/std, nested DP sub-queries). Oracle: original groups are all present, extra groups only for public values absent from the data with zero count/sum, COUNT/SUM/AVG equal within 1e-9, VAR/STD equal to the population or the sample statistic of the data.",
-        "level_note": "Trusted: SQLite + compatibility layer, the scripted random source (selftest: sqrt(-2 ln 1) cos(..) = 0), the reference statistics computed by SQL on the original data. Runs where a premise fails are counted, not judged.",
+        "level_note": "Half of the judged cases are re-run with the tightest multiplicity the data allows; clipping that is active although no unit exceeds the multiplicity the bounds were built with (read from the bound of a count column) is a violation. Trusted: SQLite + compatibility layer, the scripted random source (selftest: sqrt(-2 ln 1) cos(..) = 0), the reference statistics computed by SQL on the original data. Runs where a premise fails are counted, not judged.",
         "rule": ("4 queries per generated DP world (3..10 users, <= 3 orders per user, <= 2 items per order, no dangling keys), parameters with generous multiplicity; "
                  "evaluation = one zero-noise execution; distinct non-trivial = distinct (query, instance shape) judged (premises hold)."),
         "assumptions": COMMON_ASSUME + ["an original aggregate that is NULL (empty / all-NULL group) is not compared"],
@@ -114,7 +114,7 @@ PROPS = {
     "C10": {
         "technique": "runtime monitoring: generated predicates evaluated by an independent three-valued evaluator on member rows; satisfying rows must be members of DataType::filter's result / of the join's output field types",
         "level_text": "Exploration: ~30k predicates (comparisons col/literal and col/col in both orders, int vs float, IN lists, AND/OR/NOT nests, IS NULL, boolean columns and literals, opaque sub-terms) x 8 rows each on struct types with optional columns, literals placed at the boundaries of the column ranges; plus joins of the four kinds whose ON clause is such a predicate, observed through the join schema. A satisfying row outside the narrowed type is reported with the witness.",
-        "level_note": "Trusted: the harness's three-valued predicate evaluator and membership oracle. Comparisons mixing integers and floats beyond 2^53 are left undecided.",
+        "level_note": "Columns: integer, float, text, boolean, date, datetime, time (optional or not). Trusted: the harness's three-valued predicate evaluator and membership oracle. Comparisons mixing integers and floats beyond 2^53 are left undecided.",
         "rule": ("struct of 5 columns (2 int, float, text, bool; each optional with prob 1/4; ranges near the literals 3/4 of the time, hostile otherwise); "
                  "predicate depth <= 3; rows drawn inside the type (endpoints favoured). evaluation = one (type, predicate, row) triple; "
                  "distinct non-trivial = distinct triples whose row satisfies the predicate (the only ones the property constrains)."),
@@ -125,7 +125,7 @@ PROPS = {
     "C12": {
         "technique": "runtime monitoring: inject_into / super_image / value / as_data_type observed on generated (source type, target type, adjacent value pair) triples; oracle = membership in the converted type, numeric equality, injectivity on adjacent values, round trip",
         "level_text": "Exploration: ~1M conversions per quick run over all ordered pairs of scalar variants plus optional/list/struct/set/array liftings; values come in adjacent pairs (neighbouring integers around 2^53, adjacent floats, strings differing by one character, consecutive dates) so that a loss of injectivity is observed directly.",
-        "level_note": "Trusted: membership oracle and canonical numeric equality. Round trips are judged for scalar sources only.",
+        "level_note": "One case in five exercises the typed conversions (injection::From(A).into(B)) for 13 scalar pairs, which the DataType-level API only partly exposes; finite sets must not convert to fewer values. Trusted: membership oracle and canonical numeric equality. Round trips are judged for scalar sources only.",
         "rule": ("evaluation = one converted value; distinct non-trivial = distinct (A, B, v) with a successful conversion. "
                  "Refused conversions are counted per variant pair, not judged."),
         "assumptions": COMMON_ASSUME,
@@ -144,7 +144,7 @@ PROPS = {
     "C15": {
         "technique": "runtime monitoring: Hierarchy::get / get_key_value / Index compared with a 10-line reference model on exhaustive small scopes and random path maps; SQL queries naming a column present in both joined tables must not be accepted",
         "level_text": "Exploration, exhaustive on a small scope: all maps of <= 3 entries over 2 symbols and depth <= 3 x all lookup paths of depth <= 4 (469 maps x 31 paths) every run; random maps of 1..12 entries with shared suffixes, nested prefixes, odd names, looked up by every suffix, extension and near-miss; ~5k generated join queries whose unqualified column is in both / one / none of the tables (ON, USING, NATURAL, CROSS; aliases).",
-        "level_note": "Trusted: the reference lookup model. At the SQL level a panic counts as a refusal here (it is C18's subject); only an accepted ambiguous or unknown name is a violation.",
+        "level_note": "SQL level: the shared / unknown name in eight positions (select, where x 7 predicate shapes, group by, order by, aggregate argument, outside a derived table or CTE selecting *, ON clause), CTE names shadowing tables or outer CTEs, self-joins without alias. Trusted: the reference lookup model. At the SQL level a panic counts as a refusal here (it is C18's subject); only an accepted ambiguous or unknown name is a violation.",
         "rule": ("evaluation = one lookup or one query; distinct non-trivial = distinct maps / distinct (tables, query) pairs. "
                  "Lookups are classified exact / unique-suffix / ambiguous / no-candidate and all four classes must be hit."),
         "assumptions": COMMON_ASSUME,
@@ -154,7 +154,7 @@ PROPS = {
     "C11": {
         "technique": "runtime monitoring: law-checking oracle with an independent membership model over generated type pairs/values, and a naive interval-set model checked after every operation of generated histories",
         "level_text": "Exploration: millions of (A, B, v) law instances and ~60k interval-set histories per quick run are judged by an independent membership oracle / naive model; a violation comes with the witness types and value. Sound for what is observed; says nothing about pairs the generators do not produce.",
-        "level_note": "Trusted: the 200-line structural membership oracle (harness/src/oracle/member.rs), the naive interval model, the generators. Cross-family pairs are exercised but not judged.",
+        "level_note": "Function types / values are judged with the library's own contains (same-variant domains). Pairs include the same bounds read in the neighbouring variant (date/datetime, int/float, bool/int). Trusted: the 200-line structural membership oracle (harness/src/oracle/member.rs), the naive interval model, the generators. Cross-family pairs are exercised but not judged.",
         "rule": ("random pairs of data types (all variants, depth <= 2; B is A united/intersected with a fresh type, A itself, "
                  "option(A), a fresh type of the same variant, or unrelated) x values drawn inside A, inside B and arbitrary; "
                  "laws judged with an independent structural membership oracle on same-family pairs (numeric, temporal, "
@@ -172,7 +172,7 @@ PROPS = {
     "C18": {
         "technique": "runtime monitoring: every public compilation entry point (parse -> relation, schema/size, rendering, privacy-unit and DP rewriting) called under catch_unwind with a logical work budget (hook `tick`), overflow checks on, in subprocess shards with an in-flight log (aborts and stack overflows are seen as a dead shard with its last case)",
         "level_text": "Exploration: ~60k queries per quick run over hostile schemas (i64::MIN/MAX, +-f64::MAX, ranges containing / touching zero, zero-width ranges, 100+ interval pieces, huge integer ranges, nullable everything, declared sizes 0 and i64::MAX) with the full function list, plus a second grammar of syntactically valid but unsupported constructs whose required outcome is an error value; DpParameters include zero budgets and shares 0 / 1. Outcome must be Ok or Err: a panic, an exhausted work budget (2e9 interval operations / enumerated values) or a dead process is a violation, keyed by entry point + panic site.",
-        "level_note": "Trusted: catch_unwind + the panic hook recording the site, the tick hook (interval operations and value enumeration). A wall-clock watchdog only yields 'inconclusive'.",
+        "level_note": "Workload includes every function name the reader knows with 0-4 arguments, aggregates of arithmetic over unbounded columns, bare columns next to aggregates. Trusted: catch_unwind + the panic hook recording the site, the tick hook (interval operations and value enumeration). A wall-clock watchdog only yields 'inconclusive'.",
         "rule": ("4 queries per catalogue (3/4 supported grammar, 1/4 unsupported grammar) x 5 entry points; evaluation = one entry-point call; distinct non-trivial = distinct (query, schema) pairs."),
         "assumptions": COMMON_ASSUME,
         "crash_is_violation": True,
@@ -180,9 +180,9 @@ PROPS = {
         "thorough": {"shards": 16, "cases": 40000, "watchdog_s": 14400, "require": {"evaluations": 6000000}},
     },
     "C16": {
-        "technique": "runtime monitoring: (a) histories - a corpus recompiled in random order with other compilations (incl. DP rewritings that consume the global counters) in between, compared with a fresh-state reference, `namer_count` hook events name the cause; (b) 8 threads compiling the corpus concurrently behind a barrier with yields injected before the counter's lock; (c) render twice / reparse / re-render / execute on SQLite",
+        "technique": "runtime monitoring: (a) histories - a corpus recompiled in random order with other compilations (incl. DP rewritings that consume the global counters) in between, compared with a fresh-state reference, `namer_count` hook events name the cause; (b) 8 threads compiling the corpus concurrently behind a barrier with yields injected before the counter's lock; (c) render twice / reparse / re-render / execute on SQLite; thorough: the same two-thread comparison under Miri with many scheduler seeds",
         "level_text": "Exploration: per quick run ~40k recompilations inside histories, ~300k compilations from 8 concurrent threads (1.2k barrier rounds), ~3k fixpoint checks with execution. A recompilation must be structurally equal (==), have the same Display and the same rendered SQL as the reference; the rendered SQL must be stable, parse back to the same output names, to types containing the original ones and to the same results.",
-        "level_note": "Trusted: Relation's PartialEq / Display, SQLite for the result comparison. The fresh-process reference is approximated by namer::reset(). No Miri leg is registered (see DESIGN.md §4).",
+        "level_note": "Trusted: Relation's PartialEq / Display, SQLite for the result comparison. The fresh-process reference is approximated by namer::reset(). Thorough tier adds a Miri leg (8 scheduler seeds of 2 threads x 2 compilations, /verif/miri_c16): undefined behaviour / data races on the compile path; its status is in coverage.miri_leg and an unavailable interpreter never changes the verdict.",
         "rule": ("case mix: 2/4 histories (11 queries x 3 positions each), 1/4 thread rounds (8 threads x 6 rounds x 6 queries), 1/4 fixpoint (3 queries); "
                  "evaluation = one recompilation / thread compilation / fixpoint check; distinct non-trivial = distinct (query, position) that compiled."),
         "assumptions": COMMON_ASSUME,
@@ -192,7 +192,7 @@ PROPS = {
     "C17": {
         "technique": "runtime monitoring: every generated relation (from the supported fragment, from DP rewriting, and over catalogues whose names need quoting) is rendered by the eight translators; oracle = the dialect's own sqlparser parser, the library's reader for the seven readable dialects (output names, order, types), and SQLite execution of the SQLite translation on a plain connection against the reference rendering",
         "level_text": "Exploration: ~4k relations x 8 dialects per quick run. Per dialect: the text must parse with that dialect's parser; reading it back with the same translator must give the same column names in order and types containing the original ones; the SQLite text must run on an engine without any compatibility function and return the reference rows; reserved words, spaces, quotes and dots in table/column names must survive. Execution on MySQL, MS SQL, BigQuery, Hive, Databricks, Redshift and PostgreSQL themselves is impossible offline and is not covered.",
-        "level_note": "Trusted: sqlparser's dialect parsers (the only offline parsers for seven dialects), SQLite. Read-back types may be wider than the original (ranges are re-derived); narrower or different is a violation.",
+        "level_note": "The SQLite translation is executed on a plain connection and compared both with the reference rendering and with the original query (the renderings share one relation-to-query visitor). Trusted: sqlparser's dialect parsers (the only offline parsers for seven dialects), SQLite. Read-back types may be wider than the original (ranges are re-derived); narrower or different is a violation.",
         "rule": ("per case 2 generated queries (x2), one DP-rewritten relation, one special-name query; evaluation = one (relation, dialect) translation; distinct non-trivial = distinct source queries."),
         "assumptions": COMMON_ASSUME + ["acceptance by sqlparser's dialect parser stands for 'valid target-dialect SQL' where no engine is available"],
         "quick": {"shards": 16, "cases": 300, "watchdog_s": 1500, "require": {"evaluations": 30000, "parsed:mysql": 3000, "read_back:postgresql": 2500, "sqlite_executions": 1500, "dp_rewritten_relations": 500, "special_name_relations": 500}},
